@@ -289,6 +289,25 @@ func (s *Stage) Receive(file *sts.Partial, reader io.Reader) (err error) {
 	// Read the part and write it to the right place in the staged "partial"
 	fh, err := os.OpenFile(path+partExt, os.O_WRONLY, 0600)
 	if err != nil {
+		if os.IsNotExist(err) {
+			// An earlier part of this request may have completed a copy of a
+			// file that is already here; its remaining parts are duplicates
+			// too and only need to be read off the wire
+			existing := s.fromCache(path)
+			if existing != nil &&
+				existing.state != stateFailed &&
+				existing.hash == file.Hash {
+				var n int64
+				if n, err = io.Copy(io.Discard, reader); err == nil && n != part.End-part.Beg {
+					err = fmt.Errorf("part %d:%d of %s is incomplete: %d byte(s) received",
+						part.Beg, part.End, file.Name, n)
+				}
+				if err == nil {
+					s.logInfo("Ignoring duplicate (part):", file.Name, part.Beg, part.End)
+				}
+				return
+			}
+		}
 		err = fmt.Errorf("failed to open file while trying to write part: %s",
 			err.Error())
 		return
